@@ -235,7 +235,7 @@ def scan_cases(rec, tier):
             for form in direct + indirect:
                 for bykw in (False, True):
                     for attack in [None] + [(j, a) for j in strings for a in ATTACKS]:
-                        if attack is not None and (bykw or ti > 0):
+                        if attack is not None and bykw:
                             continue
                         built = build(rec, args, slot, form, bykw, attack=attack)
                         if built is None:
@@ -532,6 +532,8 @@ def settings_of(switches, w, b, r):
 def policy_key(settings, access, name, kwargs, exp, obs):
     d = P.decide(settings, access, name, kwargs)
     touched = [x for x in obs[1] if x[0] != 'kid']
+    if d == ('denied', 'blacklisted') and any(P.matches(name, e) for e in settings['whitelist']):
+        return 'policy: blacklisted name accepted when a whitelist entry matches'
     if d[0] == 'denied' and touched:
         return 'policy: denied member reached (%s)' % d[1]
     if d[0] == 'off' and touched:
